@@ -16,7 +16,7 @@ TRUSTED = [common.TEXT['msgsock'], server.lsock_class().text, server.rctx_class(
            'server-side RemoteWorker.__setstate__ (run by unpickling the worker payload) fails only with ConnectionClosedError when the client goes away during the handshake: lemma L2 up to the creation of the backend (raises_only), under T: on a connection the peer has reset getpeername() fails with ENOTCONN while getsockname() still works']
 ASSUMPTIONS = [
     'clients send messages of the protocol\'s types (header None or (ctx_id, bool); context payload None or a RemoteContext); what is unconstrained is WHERE the stream ends (every truncation point) and whether a reply can still be delivered',
-    'C11.L2 (no capture) covers the wait for the control connection inside the server-side RemoteWorker.__setstate__ (the only wait of the accept loop\'s thread on a client other than reading its request); the waits on the server\'s OWN freshly spawned backend process further down that function (_startup_sync, runtime info) are C20\'s concern and are outside the scope of the lemma (paths end where the backend is created)',
+    'C11.L2 (no capture) covers the wait for the control connection inside the server-side RemoteWorker.__setstate__ (the only wait of the accept loop\'s thread on a client other than reading its request); the waits on the server\'s OWN freshly spawned backend process further down that function are lemma L2s: the wait for the backend\'s report must also watch the backend\'s exit (the remote control thread sets _startup_sync as its first action: read, not verified); what the backend does after reporting is C20/C12',
     'L2 environment: the client may vanish at any moment; TCP then makes the data socket readable (FIN/RST, keep-alive for a silent host: T2/T9); a client that stays connected but never opens the control connection is not a *failure* in the sense of the property and is not covered',
     'server shutdown (terminate()/SIGTERM) is modelled as WorkerTerminatedError raised while the server is blocked in accept(); landing at other points of the loop is C12.L4 (thorough, not in this round)',
 ]
@@ -304,6 +304,83 @@ def no_capture_lemma(ex):
                     ensures=[], raises={'ConnectionClosedError': None}, raises_only=['ConnectionClosedError'], options={'recv_closed_check': False})
 
 
+def backend_wait_lemma(ex):
+    """C11.L2s: the second half of the server-side RemoteWorker.__setstate__ (still in the accept loop's own thread): after the control connection it spawns
+    the backend process and waits for the backend's report on the start-up pipe.  A backend that dies before reporting - e.g. because its client has been
+    reset meanwhile and its data socket is dead - never writes, and EOF cannot arrive either (the server holds its own copy of the backend's end of the pipe):
+    a plain recv() there blocks the accept loop, and with it the whole server, for ever.  Every wait for the report must also watch the backend's exit."""
+    from . import workers as Wk
+    base = no_capture_lemma(ex)
+    inner = base.setup
+
+    def setup(ex_, env):
+        inner(ex_, env)
+        if 'Proc' not in ex_.abs_classes:
+            ex_.abs_classes['Proc'] = Wk.proc_class()
+        # this lemma is about what comes AFTER the control connection: the client has connected it
+        sel = ex_.ext_models['select.select']
+
+        def select_connected(ex2, a, k):
+            r = sel(ex2, a, k)
+            if not z3.is_true(smt.simp(ex2.ghost['ctrl_pending_known'])):
+                from pyvc.core import PathEnd
+                raise PathEnd('the client vanished before the control connection: scope of C11.L2')
+            return r
+        ex_.ext_models['select.select'] = select_connected
+        pipes = []
+
+        def new_pipe(I2, ci, a, k, node):
+            tag = ['comms', 'ctrl', 'pipe3', 'pipe4'][len(pipes)]
+            p, ends = common.make_pipe(ex_, tag, 'Pipe')
+            pipes.append(ends)
+            if tag == 'comms':
+                # T3: EOF needs every copy of the write end closed; the server keeps its own copy of the backend's end while it waits
+                ex_.abs_classes['Conn'].set(ex_, ends['parent'], 'peer_closed', z3.BoolVal(False))
+                env['comms_parent'] = ends['parent']
+            return p
+        ex_.ghost['__new_hooks__'] = {'pyworkers.utils.Pipe': new_pipe}
+        ex_.ext_models['multiprocessing.get_context'] = lambda ex2, a_, k: VExt('mpctx')
+        ex_.ext_models['mpctx.Process'] = common.new_thread
+
+        def conn_wait(ex2, args, k):
+            lst = ex2.interp.iter_concrete(args[0])
+            pipes_in = [x for x in lst if not (isinstance(x, VInt) or isinstance(x, VSym))]
+            d = ex2.choose(2, 'wait:backend')
+            if d == 0 and pipes_in:
+                ac2 = ex2.abs_classes['Conn']
+                ex2.assume(ac2.get(ex2, env['comms_parent'], 'ipos') < z3.Length(ac2.get(ex2, env['comms_parent'], 'inq')))
+                ex2.note('wait:backend-reported')
+                return ex2.alloc(HList(pipes_in[:1]))
+            ex2.note('wait:backend-died')
+            rest = [x for x in lst if x not in pipes_in]
+            if not rest:
+                ex2.oblige('block', z3.BoolVal(False), 'a wait for the backend\'s report also watches the backend\'s exit (its sentinel): a backend that dies before '
+                           'reporting would otherwise block the accept loop for ever', ex2.ghost.get('__cur_node__'), key=('backend-wait',))
+                from pyvc.core import PathEnd
+                raise PathEnd('blocked')
+            return ex2.alloc(HList(rest[:1]))
+        ex_.ghost['__conn_wait__'] = conn_wait
+        # the remote control thread sets _startup_sync as its first action (read: _ctrl_fn_remote); modelled as already set when the server waits for it
+        ev = ex_.abs_classes['Event']
+        orig_wait = ev.methods.get('wait')
+
+        def ev_wait(ex2, a, k):
+            ev.set(ex2, a[0], 'isset', z3.BoolVal(True))
+            return VBool(True)
+        ev.methods = dict(ev.methods, wait=ev_wait)
+        ex_.ghost['on_block'] = 'oblige'
+        ex_.ghost['chan_elem_inv'] = dict(ex_.ghost.get('chan_elem_inv', {}),
+                                          **{'comms.parent': lambda ex2, x, i: z3.And(Val.is_v_tup(x), ValList.is_vl_cons(Val.vitems(x)), ValList.is_vl_cons(ValList.vl_tl(Val.vitems(x))),
+                                                                                       ValList.is_vl_cons(ValList.vl_tl(ValList.vl_tl(Val.vitems(x)))),
+                                                                                       ValList.is_vl_cons(ValList.vl_tl(ValList.vl_tl(ValList.vl_tl(Val.vitems(x))))),
+                                                                                       ValList.is_vl_nil(ValList.vl_tl(ValList.vl_tl(ValList.vl_tl(ValList.vl_tl(Val.vitems(x)))))))})
+    base.setup = setup
+    base.lid = 'L2s'
+    base.name = ('C11.L2s server-side RemoteWorker.__setstate__ never waits for the report of its own backend without watching the backend\'s exit '
+                 '(a backend whose client is gone dies before reporting)')
+    return base
+
+
 def request_state_lemma(ex):
     """L4: what a worker request carries: RemoteWorker.__getstate__(remote=True) on the parent side returns a COPY of the object's dictionary in which everything
     that must not travel is blanked (_child, _socket, _startup_sync), the work is carried as one pickled payload (unless the worker belongs to a context) and
@@ -360,7 +437,28 @@ def request_state_lemma(ex):
 
 def build(ex):
     server.install(ex)
-    return [(build_run_contract(ex, ex.prop), None), (no_capture_lemma(ex), None), (request_state_lemma(ex), None)]
+    return [(build_run_contract(ex, ex.prop), None), (no_capture_lemma(ex), None), (backend_wait_lemma(ex), None), (request_state_lemma(ex), None)] + transport_lemmas(ex)
+
+
+def transport_lemmas(ex):
+    """L5: every lemma above takes send_msg as 'appends the message or raises ConnectionClosedError' - the only per-client failure the accept loop (and the
+    context helper) are prepared for.  That classification is itself an obligation: the contract of the C10 cone on send_msg (raises_only), checked here too."""
+    from . import C10 as _c10
+    saved_abs, saved_ext, saved_spec = dict(ex.abs_classes), dict(ex.ext_models), dict(ex.spec_functions)
+    built = _c10.build(ex)
+    for k_, v_ in saved_abs.items():
+        ex.abs_classes[k_] = v_
+    for k_, v_ in saved_ext.items():
+        ex.ext_models[k_] = v_
+    for k_, v_ in saved_spec.items():
+        ex.spec_functions[k_] = v_
+    out = []
+    for con, v in built:
+        if con.lid == 'L1':
+            con.lid = 'L5'
+            con.name = 'C11.L5 send_msg reports every failure of the socket as ConnectionClosedError (and writes exactly one frame otherwise)'
+            out.append((con, v))
+    return out
 
 
 MUTANTS = [
@@ -382,6 +480,9 @@ MUTANTS = [
 
 def replay(ob, repo):
     from pyvc.native import run_script
+    if 'C11.L5' in ob.get('lemma', ''):
+        r = run_script('c10_native.py', {'msgs': [['request', 1]]}, repo, timeout=60)
+        return bool(r.get('violates')), r
     if 'C18.L' in ob.get('text', ''):       # context table transitions / routing of worker requests by context id: the scenarios of the context helper
         r = run_script('c18_native.py', {'lemma': 'C18.L2'}, repo, timeout=150)
         return bool(r.get('violates')), r
